@@ -58,7 +58,7 @@ func waitFor(cond func() bool, d time.Duration) bool {
 
 func init() {
 	checks["C15"] = func(rep *Report, tier string, seed int64) {
-		rep.Rule = "for each stack configuration (L1-only and L1/L2, pass-through and chunked handlers, with and without the locking wrapper, main and batch port) and each representative request stream (every command alone, pipelines, quiet batches closed by get / noop, a quit followed by more requests) in text and binary: for every prefix length of the stream (quick: 0, 1, every length up to 30, then a seeded sample; thorough: every length) a client sends the prefix and goes away; observed: the bytes the server still sends (compared with the Lean model run on the same prefix, together with both backend traces and lock logs), that the server closes the connection, that the fake backends' open-connection counts return to their baseline (the handlers' sockets are closed), that the goroutine count returns to its baseline, and that a new connection is accepted and can use the same keys at once (no key is left locked); plus, per configuration, protocol and port, a client that pipelines 400 gets / multi-key gets / get-and-touches of 2300-byte values and disconnects without reading (the server's reply writes fail inside a command), judged by the same observations without the model; distinct = distinct (configuration, stream, prefix length)"
+		rep.Rule = "for each stack configuration (L1-only and L1/L2, pass-through and chunked handlers, with and without the locking wrapper, main and batch port) and each representative request stream (every command alone, pipelines, quiet batches closed by get / noop, a quit followed by more requests) in text and binary: for every prefix length of the stream (quick: 0, 1, every length up to 30, then a seeded sample; thorough: every length) a client sends the prefix and goes away; observed: the bytes the server still sends (compared with the Lean model run on the same prefix, together with both backend traces and lock logs), that the server closes the connection, that the fake backends' open-connection counts return to their baseline (the handlers' sockets are closed), that the goroutine count returns to its baseline, and that a new connection is accepted and can use the same keys at once (no key is left locked); plus two clients connected and silent at the same time, the first disconnecting (the second must be served, everything released); plus, per configuration, protocol and port, a client that pipelines 400 gets / multi-key gets / get-and-touches of 2300-byte values and disconnects without reading (the server's reply writes fail inside a command), judged by the same observations without the model; distinct = distinct (configuration, stream, prefix length)"
 		d := StartDriver()
 		defer d.Close()
 		r := rand.New(rand.NewSource(seed*389 + 15))
@@ -138,6 +138,7 @@ func init() {
 					for _, n := range lens {
 						port := ports[(n+len(name))%len(ports)]
 						tag := fmt.Sprintf("%d/%s/%s/%s/%d", ci, proto, port, name, n)
+						crumb("a client sends a prefix of a request stream and goes away", map[string]interface{}{"stack": cfg.String(), "proto": proto, "port": port, "stream": name, "prefix_len": n, "stream_hex": hx(stream)})
 						st.Reset()
 						// state: both keys present (so every command has work to do)
 						d.Send("case C15-"+tag, 0)
@@ -243,6 +244,40 @@ func init() {
 							}
 						}
 						nc.Close()
+					}
+				}
+				// two clients connected at the same time, both silent; the first goes away: the second
+				// must still be served and both connections' resources must be released
+				if proto == "bin" {
+					crumb("two silent clients overlap, the first disconnects", map[string]interface{}{"stack": cfg.String()})
+					st.Reset()
+					waitFor(func() bool { return st.L1.OpenConns() == 0 && st.L2.OpenConns() == 0 }, time.Second)
+					ca, errA := net.Dial("unix", st.MainSock)
+					must(errA)
+					time.Sleep(30 * time.Millisecond)
+					cb := st.Dial("main", "bin")
+					time.Sleep(30 * time.Millisecond)
+					ca.Close()
+					time.Sleep(60 * time.Millisecond)
+					out, e := cb.Feed(Command{Kind: "get", Keys: []GetKey{{Key: k, Opaque: 77}}}.Encode("bin"), 2*time.Second)
+					cb.Close()
+					rep.Evaluations++
+					rep.Validated++
+					rep.Distribution["overlapping-idle-clients"]++
+					distinct[fmt.Sprintf("%d/overlap", ci)] = true
+					ofail := func(sig, what string) {
+						rep.Violations = append(rep.Violations, Violation{What: fmt.Sprintf("%s: client A connects and stays silent, client B connects, A disconnects: %s", cfg, what), Signature: sig,
+							Replay: map[string]interface{}{"stack": cfg.String(), "sequence": "A connects; B connects; A closes; B: get foo; B closes"}})
+					}
+					if e != "eof" {
+						ofail("overlap-second-client-dropped", fmt.Sprintf("B's get ended %q (%s)", e, canonN(64, out)))
+					}
+					if !waitFor(func() bool { return st.L1.OpenConns() == 0 && st.L2.OpenConns() == 0 }, 2*time.Second) {
+						ofail("overlap-backend-conn-leak", fmt.Sprintf("after both are gone backend connections stay open: L1 %d, L2 %d", st.L1.OpenConns(), st.L2.OpenConns()))
+					}
+					if !waitFor(func() bool { return runtime.NumGoroutine() <= baseG }, 2*time.Second) {
+						ofail("overlap-goroutine-leak", fmt.Sprintf("%d goroutines, %d before", runtime.NumGoroutine(), baseG))
+						baseG = runtime.NumGoroutine()
 					}
 				}
 				// the client vanishes WITHOUT reading: it pipelines requests with large replies and
